@@ -17,3 +17,7 @@ func init() {
 	register("C17", "", ruleE5, ruleModeDefaults)
 	register("C19", "", ruleT9, ruleP6)
 }
+
+func init() {
+	register("C04", "", ruleT3, ruleBranch)
+}
